@@ -76,8 +76,9 @@ class Harness:
     name = 'C10.count-pick-support'
     mode = 'U'
 
-    def __init__(self, N=4, L=2, kinds=None, via=None):
+    def __init__(self, N=4, L=2, kinds=None, via=None, decl='choose'):
         self.N, self.L = N, L
+        self.decl = decl
         self.kinds = kinds or KINDS
         self.via = via or ['bdd']
 
@@ -93,7 +94,7 @@ class Harness:
         kind = self.kinds[c.choose(len(self.kinds), 'kind')]
         # names whose alphabetical order differs from the level order
         m = SymMgr(N, 0, L, names=['c', 'a', 'd', 'b'][:L], with_cache=False, with_refs=False)
-        m.decl = 'choose'
+        m.decl = self.decl
         m.assume_pre()
         bdd = m.install(self.B)
         bdd._assert_int = lambda x: x
